@@ -83,12 +83,24 @@ impl Family for RuleCheck {
         self.inner.len()
     }
     fn describe(&self, idx: u64) -> Value {
-        let (p, label) = self.inner.get(idx);
+        let (mut p, label) = self.inner.get(idx);
+        if idx % 3 == 2 {
+            let mut first = MFile::module("ZFirst");
+            first.defs.push(st("ZHealthy", vec![MField::new("z", MType::prim("bool"))]));
+            p.insert(0, first);
+        }
         let c = PCase { program: p, layout: Layout::uniform(Sep::Space, Commas::None), label, may_warn: true };
         describe_case(&c)
     }
     fn run(&self, idx: u64) -> CaseOut {
-        let (p, _) = self.inner.get(idx);
+        let (mut p, _) = self.inner.get(idx);
+        // every third case: a healthy file of another module in front, so that the program's own files are not the
+        // first ones of the compilation (rules hold for the program, not for its first file)
+        if idx % 3 == 2 {
+            let mut first = MFile::module("ZFirst");
+            first.defs.push(st("ZHealthy", vec![MField::new("z", MType::prim("bool"))]));
+            p.insert(0, first);
+        }
         let layout = if idx % 5 == 4 { Layout::uniform(Sep::Newline, Commas::Between) } else { Layout::uniform(Sep::Space, Commas::None) };
         let rendered = render_program(&p, &layout);
         let mut out = CaseOut::new(case_hash(&rendered));
@@ -118,10 +130,10 @@ fn tag_choice(c: u64) -> Option<MInt> {
 
 /// Every tag/optional assignment over <= 3 members in each member container.
 pub struct Tags;
-const CONTAINERS: u64 = 6;
+const CONTAINERS: u64 = 8;
 impl RuleFamily for Tags {
     fn name(&self) -> String {
-        "tags/every (tag, optional) assignment over <= 3 members x 6 containers".into()
+        "tags/every (tag, optional) assignment over <= 3 members x 8 containers (struct, compact struct, parameters, return members, enumerator fields of a plain and of a compact enum, the same list as parameters AND return members of one operation, the same list on two enumerators)".into()
     }
     fn len(&self) -> u64 {
         // members n in 1..=3: 14^n
@@ -165,6 +177,13 @@ impl RuleFamily for Tags {
                 }
             }
             4 => en("E", None, vec![MEnumerator { c: MCommon::new("A"), fields: Some(fields), value: None }]),
+            // the same tags in two neighbouring member lists are legal: each list is judged on its own
+            6 => {
+                let rets: Vec<MParam> = params.iter().map(|p| MParam { name: MIdent::new(&format!("r{}", p.name.name)), ..p.clone() }).collect();
+                let ret = if rets.len() == 1 { MRet::Single { tag: rets[0].tag.clone(), stream: false, ty: rets[0].ty.clone() } } else { MRet::Tuple(rets) };
+                iface("I", vec![], vec![op("o", params, ret)])
+            }
+            7 => en("E", None, vec![MEnumerator { c: MCommon::new("A"), fields: Some(fields.clone()), value: None }, MEnumerator { c: MCommon::new("B"), fields: Some(fields), value: None }]),
             _ => {
                 let mut d = en("E", None, vec![MEnumerator { c: MCommon::new("A"), fields: Some(fields), value: None }]);
                 if let MDef::Enum(e) = &mut d {
